@@ -1223,7 +1223,7 @@ func genLimits(g *tr.G) {
 }
 
 func main() {
-	tr.Main("C01: whole histories of stree.Tree over (key,payload) elements compared by key. Comparators: natural, reversed and modulo-j orders, each delivering the sign as -1/0/1, as the difference, three times the difference, a payload-dependent multiple of the difference, sign times 2^40, MinInt64/MaxInt64, or through stree.KV.Compare (half of all histories use a non-unit style). Generators: small random histories over 3..12 keys with New/Add/Replace/Remove/Clear/Clone and full Inorder+shape dumps and Get/InorderAfter/stopped-Inorder probes after every mutation; every insertion order of 4..5 (thorough 6..7) keys followed by every single removal on a fresh clone and lookups of all keys; sign-only probes (keys spaced so that no comparison returns -1 or 1: Get/Add/Replace/Remove/InorderAfter on present keys, keys between two present ones and keys beyond both ends); sorted, reverse, zig-zag, inside-out, random and duplicate-heavy insertion patterns up to 160 (quick) / 1500 (thorough) keys at beta in {0,1,250,500,999,1000} plus random beta, each optionally drained ascending/descending/randomly/three-quarters and refilled; bulk New with unsorted duplicated keys (the kept representatives are recorded as oracle input); two-child removals found on the real tree followed by lookups of the promoted successor; Clone then mutate both copies; New with beta outside 0..1000 (down to MinInt64 and up to MaxInt64, with and without keys) must panic with exactly the documented value. After every mutation: result, Len, IsEmpty, Min, Max, t.max, node count and hashes of the full Inorder output and of the whole shape read through Root/Left/Right/Key, for every live tree. Plus sweeps of the float depth limit VerifLimit(beta,n). Scale stream (B lines, macro operations over arithmetic key sequences): trees of 2^k-1, 2^k, 2^k+1 keys for k = 3..12 and a few random sizes up to 8192, built by Add or Replace in ascending/descending/outside-in/inside-out/random order or by New from sorted/unsorted/duplicated keys (oracle recorded per class), at beta in {0,1,50,155,250,500,800,880,950,999,1000} in rotation (vines above 1025 keys only a few per run in the quick tier); grow - probe - drain to 1/2..1/16 by Remove - every observer on every remaining key - regrow past the peak - drain to empty by Remove - regrow; Clone of a big tree then divergent edits on both sides; removals of two-child nodes whose successor lies deep (found on the real tree); equivalences coarser than identity (keys modulo n) with payloads; comparators delivering the sign as -1/0/1, differences, multiples, payload-dependent multiples, 2^40 and MinInt64/MaxInt64. After EVERY call of a B line a digest takes in the result, Len, IsEmpty, Min, Max and Get of the key just used (and t.max); about nine checkpoints per macro list, for every live tree, Len, IsEmpty, Min, Max, t.max, node count, a digest of the whole Inorder output and a digest of the whole shape read through one cursor. Counters delete-rebuild*/goat-rebuild are read from the implementation's own outputs. Round 5 (ops Z, Y; B macro Z; comparator style q): traversals ALIVE TOGETHER - two or three InorderAfter/Inorder iterations started through iter.Pull and pulled in lock step or in random bursts over one tree or over an original and its clone (Clone taken after earlier range queries, then edits on either side), and read-only calls from inside a loop body (a second range query from key+d stopped at once / after a few keys / never, Inorder, Get, Min/Max/Len, Tree.Cursor with Next and Prev) at every or every other element of an outer InorderAfter/Inorder, exhaustively for every pair of start keys on trees of 1,2,3,5,7 keys and at random on trees up to 40 keys; what each traversal delivers must be what it delivers alone (model and reference evaluate each by itself); on big trees pairs of range queries on original and clone pulled in turns (digest); a comparator that during Get/InorderAfter/these ops reads the tree it is called for (Get, Len, Min, Max, InorderAfter, Cursor, Inorder in rotation). Round 6 (round6.go, B lines): drain sweeps - for beta in {0,50,250,500,999} every peak 0..130 (grown in five orders under rotating comparators) drained by Remove of ONE key per macro (ascending, descending, random) down to the empty tree, a checkpoint (Len, IsEmpty, Min, Max, t.max, node count, Inorder digest, shape digest) after every Remove (quick: after every fourth above 48 remaining keys), Get over the range and InorderAfter around the removed key after every fourth, full Inorder at the end, observers on the new empty tree before the first mutation, a third regrown to half the peak and drained again: every count at which the delete-side rebuild fires, from every peak. A case is non-trivial when it removed a present key, replaced an existing one, bulk-loaded duplicates, cloned, or has more than 20 ops.",
+	tr.Main("C01: whole histories of stree.Tree over (key,payload) elements compared by key. Comparators: natural, reversed and modulo-j orders, each delivering the sign as -1/0/1, as the difference, three times the difference, a payload-dependent multiple of the difference, sign times 2^40, MinInt64/MaxInt64, or through stree.KV.Compare (half of all histories use a non-unit style). Generators: small random histories over 3..12 keys with New/Add/Replace/Remove/Clear/Clone and full Inorder+shape dumps and Get/InorderAfter/stopped-Inorder probes after every mutation; every insertion order of 4..5 (thorough 6..7) keys followed by every single removal on a fresh clone and lookups of all keys; sign-only probes (keys spaced so that no comparison returns -1 or 1: Get/Add/Replace/Remove/InorderAfter on present keys, keys between two present ones and keys beyond both ends); sorted, reverse, zig-zag, inside-out, random and duplicate-heavy insertion patterns up to 160 (quick) / 1500 (thorough) keys at beta in {0,1,250,500,999,1000} plus random beta, each optionally drained ascending/descending/randomly/three-quarters and refilled; bulk New with unsorted duplicated keys (the kept representatives are recorded as oracle input); two-child removals found on the real tree followed by lookups of the promoted successor; Clone then mutate both copies; New with beta outside 0..1000 (down to MinInt64 and up to MaxInt64, with and without keys) must panic with exactly the documented value. After every mutation: result, Len, IsEmpty, Min, Max, t.max, node count and hashes of the full Inorder output and of the whole shape read through Root/Left/Right/Key, for every live tree. Plus sweeps of the float depth limit VerifLimit(beta,n). Scale stream (B lines, macro operations over arithmetic key sequences): trees of 2^k-1, 2^k, 2^k+1 keys for k = 3..12 and a few random sizes up to 8192, built by Add or Replace in ascending/descending/outside-in/inside-out/random order or by New from sorted/unsorted/duplicated keys (oracle recorded per class), at beta in {0,1,50,155,250,500,800,880,950,999,1000} in rotation (vines above 1025 keys only a few per run in the quick tier); grow - probe - drain to 1/2..1/16 by Remove - every observer on every remaining key - regrow past the peak - drain to empty by Remove - regrow; Clone of a big tree then divergent edits on both sides; removals of two-child nodes whose successor lies deep (found on the real tree); equivalences coarser than identity (keys modulo n) with payloads; comparators delivering the sign as -1/0/1, differences, multiples, payload-dependent multiples, 2^40 and MinInt64/MaxInt64. After EVERY call of a B line a digest takes in the result, Len, IsEmpty, Min, Max and Get of the key just used (and t.max); about nine checkpoints per macro list, for every live tree, Len, IsEmpty, Min, Max, t.max, node count, a digest of the whole Inorder output and a digest of the whole shape read through one cursor. Counters delete-rebuild*/goat-rebuild are read from the implementation's own outputs. Round 5 (ops Z, Y; B macro Z; comparator style q): traversals ALIVE TOGETHER - two or three InorderAfter/Inorder iterations started through iter.Pull and pulled in lock step or in random bursts over one tree or over an original and its clone (Clone taken after earlier range queries, then edits on either side), and read-only calls from inside a loop body (a second range query from key+d stopped at once / after a few keys / never, Inorder, Get, Min/Max/Len, Tree.Cursor with Next and Prev) at every or every other element of an outer InorderAfter/Inorder, exhaustively for every pair of start keys on trees of 1,2,3,5,7 keys and at random on trees up to 40 keys; what each traversal delivers must be what it delivers alone (model and reference evaluate each by itself); on big trees pairs of range queries on original and clone pulled in turns (digest); a comparator that during Get/InorderAfter/these ops reads the tree it is called for (Get, Len, Min, Max, InorderAfter, Cursor, Inorder in rotation). Round 6 (round6.go, B lines): drain sweeps - for beta in {0,50,250,500,999} every peak 0..130 (grown in five orders under rotating comparators) drained by Remove of ONE key per macro (ascending, descending, random) down to the empty tree, a checkpoint (Len, IsEmpty, Min, Max, t.max, node count, Inorder digest, shape digest) after every Remove, Get over the range and InorderAfter around the removed key after every fourth, full Inorder at the end, observers on the new empty tree before the first mutation, a third regrown to half the peak and drained again: every count at which the delete-side rebuild fires, from every peak. A case is non-trivial when it removed a present key, replaced an existing one, bulk-loaded duplicates, cloned, or has more than 20 ops.",
 		exec, func(g *tr.G) {
 			r := g.R
 			// invalid β, with and without keys: the documented panic and nothing else
